@@ -21,6 +21,37 @@
 
 namespace rlbox {
 
+namespace detail {
+  // Compute ptr + index * elem_size (or ptr - index * elem_size) exactly.
+  // Aborts if the exact result does not fit in the address space, instead of
+  // silently wrapping around and possibly landing back inside the sandbox.
+  template<typename T_Index>
+  inline uintptr_t checked_pointer_offset(uintptr_t ptr,
+                                          T_Index index,
+                                          size_t elem_size,
+                                          bool subtract)
+  {
+    const char* err_msg =
+      "Pointer arithmetic overflowed a pointer beyond sandbox memory";
+    uintptr_t magnitude = static_cast<uintptr_t>(index);
+    if constexpr (std::is_signed_v<T_Index>) {
+      if (index < 0) {
+        magnitude = static_cast<uintptr_t>(0) - magnitude;
+        subtract = !subtract;
+      }
+    }
+    const uintptr_t max_val = static_cast<uintptr_t>(-1);
+    dynamic_check(elem_size == 0 || magnitude <= max_val / elem_size, err_msg);
+    const uintptr_t offset = magnitude * elem_size;
+    if (subtract) {
+      dynamic_check(offset <= ptr, err_msg);
+      return ptr - offset;
+    }
+    dynamic_check(offset <= max_val - ptr, err_msg);
+    return ptr + offset;
+  }
+}
+
 template<template<typename, typename> typename T_Wrap,
          typename T,
          typename T_Sbx>
@@ -118,8 +149,11 @@ public:
       detail::dynamic_check(ptr != nullptr,                                    \
                             "Pointer arithmetic on a null pointer");           \
       /* increment the target by size of the data structure */                 \
-      auto target =                                                            \
-        reinterpret_cast<uintptr_t>(ptr) opSymbol raw_rhs * sizeof(*impl());   \
+      auto target = detail::checked_pointer_offset(                            \
+        reinterpret_cast<uintptr_t>(ptr),                                      \
+        raw_rhs,                                                               \
+        sizeof(*impl()),                                                       \
+        (0 opSymbol 1) < 0 /* subtract */);                                    \
       auto no_overflow = rlbox_sandbox<T_Sbx>::is_in_same_sandbox(             \
         reinterpret_cast<const void*>(ptr),                                    \
         reinterpret_cast<const void*>(target));                                \
@@ -382,7 +416,10 @@ public:
 
       // increment the target by size of the data structure
       auto target =
-        reinterpret_cast<uintptr_t>(ptr) + raw_rhs * sizeof(*this->impl());
+        detail::checked_pointer_offset(reinterpret_cast<uintptr_t>(ptr),
+                                       raw_rhs,
+                                       sizeof(*this->impl()),
+                                       false /* subtract */);
       auto no_overflow = rlbox_sandbox<T_Sbx>::is_in_same_sandbox(
         ptr, reinterpret_cast<const void*>(target));
       detail::dynamic_check(
